@@ -357,16 +357,31 @@ fn stage_text(s: Stage) -> &'static str {
 }
 
 fn program(source: &Source, stages: &[Stage], consumer: Consumer, pulls: usize, twice: bool) -> String {
+    program_in(source, stages, consumer, pulls, twice, 0)
+}
+
+/// form 0: every stage bound to a name, the source drained at the end (what `reference` models);
+/// form 1: the same without the final drain; form 2: the whole pipeline written in place, as one
+/// expression where the consumer stands (forms 1 and 2 must agree: naming a stage changes nothing)
+fn program_in(source: &Source, stages: &[Stage], consumer: Consumer, pulls: usize, twice: bool, form: u8) -> String {
     // every stage is bound to a name so that `? T` (which binds tighter) and the others compose as written
     let mut text = String::from(PRELUDE);
     if twice {
         text.push_str("once := () -> any {\n");
     }
-    text.push_str(&format!("s0 := {};\n", source_text(source)));
-    for (i, st) in stages.iter().enumerate() {
-        text.push_str(&format!("s{} := s{}{};\n", i + 1, i, stage_text(*st)));
-    }
-    let it = format!("s{}", stages.len());
+    let it = if form == 2 {
+        let mut e = source_text(source);
+        for st in stages {
+            e = format!("({e}{})", stage_text(*st));
+        }
+        e
+    } else {
+        text.push_str(&format!("s0 := {};\n", source_text(source)));
+        for (i, st) in stages.iter().enumerate() {
+            text.push_str(&format!("s{} := s{}{};\n", i + 1, i, stage_text(*st)));
+        }
+        format!("s{}", stages.len())
+    };
     let body = match consumer {
         Consumer::Collect => format!("r := {it} $];"),
         Consumer::PartitionGt1 => format!("r := {it} \\ q1;"),
@@ -395,7 +410,9 @@ fn program(source: &Source, stages: &[Stage], consumer: Consumer, pulls: usize, 
     };
     text.push_str(&body);
     // then drain the source: only a consumer that may stop early leaves anything in it
-    text.push_str("\nr := (r, s0 $]);");
+    if form == 0 {
+        text.push_str("\nr := (r, s0 $]);");
+    }
     if twice {
         // the same function value evaluated twice, then the same loop body evaluated twice
         text.push_str("\nreturn r };\nr1 := once(); r2 := once();\nseen := mut [any] []; k := mut 0; while *k < 2 { k += 1; seen += [once()] };\n((r1, r2, *seen), *log)");
@@ -837,6 +854,24 @@ pub fn run(tier: &str) -> i32 {
                 sig: format!("C11|{what}|source={}|stages={}|consumer={:?}", match &j.source { Source::Counter(_) => "counter", Source::Array(_) => "array", Source::Logged(_) => "logged" }, stages.join(" "), j.consumer),
                 detail: json!({"kind": "program", "stdlib": true, "text": text, "expected": want, "observed": got}),
             });
+        }
+        // the pipeline written in place against every stage bound to a name: the same result and trace
+        if !j.twice && !j.stages.is_empty() && !matches!(j.consumer, Consumer::Manual) {
+            let show = |text: &str| match core::run_text(text, true, core::QUICK_FUEL) {
+                core::Outcome::Value(v) => canon(&v),
+                other => other.tag(),
+            };
+            let named = program_in(&j.source, &j.stages, j.consumer, j.pulls, false, 1);
+            let inline = program_in(&j.source, &j.stages, j.consumer, j.pulls, false, 2);
+            acc.programs += 2;
+            let (gn, gi) = (show(&named), show(&inline));
+            if gn != gi {
+                let stages: Vec<&str> = j.stages.iter().map(|s| stage_text(*s).trim()).collect();
+                acc.violations.push(Violation {
+                    sig: format!("C11|written-in-place-differs-from-named-stages|source={}|stages={}|consumer={:?}", match &j.source { Source::Counter(_) => "counter", Source::Array(_) => "array", Source::Logged(_) => "logged" }, stages.join(" "), j.consumer),
+                    detail: json!({"kind": "program", "stdlib": true, "text": inline, "the same pipeline with every stage bound to a name": named, "expected": gn, "observed": gi}),
+                });
+            }
         }
     });
     let mut acc = Acc::default();
